@@ -469,6 +469,13 @@ func runE2EWith(c *core.Ctx, asan bool) {
 	for i := 0; i < nrec; i++ {
 		fc.recs = append(fc.recs, gen.RandRec(c.Rng, format, i, false, maxLen))
 	}
+	if (format == "fasta" || format == "fastq") && c.Idx%7 == 3 {
+		// the very first title line is longer than what format sniffers usually look at
+		fc.recs[0].Def = gen.LongDef(c.Rng, []int{3000, 3100, 4096, 9000, 70000}[c.Rng.Intn(5)], c.Rng.Intn(2) == 0)
+	}
+	// a UTF-8 byte order mark in front of the text: skipped by the code that opens files by name
+	// (plain or compressed); not used with stdin, where nothing is promised
+	fc.style.BOM = c.Idx%5 == 2
 	fc.text = gen.Render(c.Rng, fc.recs, fc.style)
 	ext := map[string]string{"fasta": ".fasta", "fastq": ".fastq", "genbank": ".gb", "embl": ".embl"}[format]
 	base := filepath.Join(c.Dir, fmt.Sprintf("e%d%s", c.Idx, ext))
@@ -509,6 +516,9 @@ func runE2EWith(c *core.Ctx, asan bool) {
 		opt := cmdx.Opt{}
 		if chunk > 0 {
 			opt.Env = []string{fmt.Sprintf("OBIVERIF_CHUNK=%d", chunk), fmt.Sprintf("OBIVERIF_YIELD=%d:300:200", c.Idx)}
+		}
+		if v.stdin && fc.style.BOM {
+			continue
 		}
 		if asan {
 			if !v.stdin && v.name != "file" && v.name != "file-gzip" {
